@@ -13,9 +13,19 @@ over grammar-directed Micheline expressions:
      column multi-line branches of the formatter are taken, each with inline=True and inline=False.
   L  literal families: strings over printable ASCII (every single character, every word of length <= n over the
      characters the lexer treats specially), integers incl. negatives and 0, bytes incl. empty, in every data host.
+  L2 literal combinations: every ORDERED PAIR (and every triple over a smaller alphabet) of literals -- strings over the
+     special characters, ints, bytes -- side by side in one text, in every two-hole data/code host, short and with a long
+     trailing filler (multi-line layout): what one literal does to the lexing of the NEXT one.
   B  sort-blind family: EVERY primitive of `prim_tags` (also the TZT/REPL keywords) applied to every tuple of
      0..n arguments over a pool of argument shapes, bare and annotated, at root, in sequence position and in
      argument position.
+  H  call histories.  A..B run through ONE reused MichelsonParser (its own kind of history); H runs SEQUENCES of round trips
+     through the default path `michelson_to_micheline(text)` inside one shard (= one process), forwards and then backwards,
+     every call judged on its own, every returned expression scribbled over before the next call.  The sequences are
+     neighbourhoods of texts that are easy to confuse: the string alphabet (incl. white-space runs of different length
+     inside/around a string) in one host, ints/bytes (both hex cases), all type / instruction / data / code / script
+     forms, the short and the long version of one form, words that are a type, an instruction and a constructor up to
+     case (int INT, pair PAIR Pair).
 
 Oracle: the round trip itself.  It is applied only where the statement applies: `msyntax.root_sort(e)` must say
 that e denotes Michelson code, a type or data; everything else (ill-sorted applications, annotated data,
@@ -23,6 +33,7 @@ non-Michelson primitives, one-section scripts) is explored, its outcome class re
 """
 from __future__ import annotations
 
+import copy
 import itertools
 import json
 import re
@@ -33,24 +44,33 @@ from mc.ref import msyntax as G
 ID = 'C18'
 LEVEL = 'exploration'
 RULE = ('A: (host chain of depth<=K) x (node form of the hole sort: every primitive x signature x argument fillers x '
-        'annotation list) x {short,long} x inline{T,F}; L: literal alphabets x data hosts; B: every prim_tags primitive x '
-        'argument-shape tuples x {bare,annotated} x generic hosts.  JUDGED = msyntax.root_sort(expr) is not None.  '
+        'annotation list incl. lists with a repeated token) x {short,long} x inline{T,F}; L: literal alphabets x data hosts; '
+        'L2: ordered pairs / triples of literals x two-/three-hole hosts x {short, long trailing filler}; B: every prim_tags '
+        'primitive x argument-shape tuples x {bare,annotated} x generic hosts; H: sequences of default-parser round trips in '
+        'one process, forwards then backwards, each call judged, results scribbled over between calls.  JUDGED = msyntax.root_sort(expr) is not None.  '
         'non-trivial = distinct judged (expr, inline) that contains at least one feature the statement names: applied or '
         'annotated primitive in argument position, string needing an escape, negative int, bytes, nested/empty sequence, '
         'or whose text takes the multi-line layout')
 BOUND = {
-    'quick': 'A: chains depth<=1 with 9 annotation lists, depth 2 with 4 on reduced forms; L: strings len<=2 over 13 special chars + all 96 '
-             'single chars, 14 ints, 6 byte strings; B: 181 prims x tuples len<=2 over 8 shapes x 2 x 8 hosts',
-    'thorough': 'A: chains depth<=2 with 13 annotation lists, depth 3 with 3 on reduced forms; L: strings len<=3; '
-                'B: tuples len<=3',
+    'quick': 'A: chains depth<=1 with 12 annotation lists (3 with a repeated token), depth 2 with 4 on reduced forms; L: strings len<=2 '
+             'over 13 special chars + all 96 single chars + white-space words len<=4, 14 ints, 7 byte strings; L2: 96^2 ordered pairs '
+             '(strings len<=2 over 9 special chars, 3 ints, 2 byte strings) x 7 hosts, 8^3 triples x 2 hosts; B: 181 prims x tuples '
+             'len<=2 over 8 shapes x 2 x 8 hosts; H: 12 sequences (strings in 4 hosts, literals, types at root and in argument '
+             'position, data, instructions, code+scripts, short/long, same word up to case), about 11k default-parser calls',
+    'thorough': 'A: chains depth<=2 with 18 annotation lists (5 with a repeated token), depth 3 with 3 on reduced forms; L: strings len<=3; '
+                'L2: 204^2 ordered pairs (strings len<=2 over 13 special chars, 14 ints, 7 byte strings) x 7 hosts, 14^3 triples; '
+                'B: tuples len<=3; H: strings (white-space words len<=6) in every data host of depth<=1, other sequences as quick '
+                'with the thorough annotation lists',
 }
 ASSUMPTIONS = [
     '"denotes Michelson code, a type or data" is read syntactically: primitive classes, arities and argument sorts of '
     'mc/ref/msyntax.py (validated: classifies all 181 prim_tags, accepts the 20 recorded contracts); no type checking',
     'annotation syntax is the Michelson reference regexp @%|@%%|%@|[@:%][_0-9a-zA-Z][_0-9a-zA-Z.%@]* (plus the empty '
     'annotations); annotations on data constructors and sections are outside the statement',
-    'bulk cases reuse one MichelsonParser instance per worker; the first 25 failures of every shard and every 200th case are re-run through the '
-    'default path michelson_to_micheline(text) (fresh parser) and must agree',
+    'bulk cases (A, L, L2, B) reuse one MichelsonParser instance per worker; the first 25 failures of every shard and every 200th case are '
+    're-run through the default path michelson_to_micheline(text) and must agree; family H uses the default path only',
+    'history: only what family H puts into one shard is a guaranteed history (the runner keeps a shard inside one process); '
+    'which shards share a process is fixed for a given seed but not part of the claim',
     '`Ticket` data is taken as Ticket <ticketer> <type> <content> <amount>',
 ]
 LEVEL_TEXT = ('exhaustive over the stated finite universe of expressions (every primitive, every admitted position, '
@@ -83,10 +103,16 @@ def B(h):
 
 CONST = P('constant', S('exprtWsu1N8st7XBhS685Qa2B83WTTq7tfQKpeLfTKSXgtgGwhfKbk'))
 LONGS = 'x' * 90
+# annotation lists; REPEATED: the same token more than once on one primitive (adjacent, with the `%` placeholder as in
+# `PAIR % % %c`, the special `%@ %@` of the SET_CxR/MAP_CxR expansions, non-adjacent)
+REPEATED = {
+    'quick': [['%a', '%a'], ['%@', '%@'], ['%', '%', '%a']],
+    'thorough': [['%a', '%a'], ['%@', '%@'], ['%', '%', '%a'], [':t', '%a', ':t'], ['@v', '@v', '@v']],
+}
 ANN = {
-    'quick': [[], ['%a'], [':t'], ['@v'], ['%a', ':t'], ['%@'], ['@%%'], ['%'], ['%a%b']],
+    'quick': [[], ['%a'], [':t'], ['@v'], ['%a', ':t'], ['%@'], ['@%%'], ['%'], ['%a%b']] + REPEATED['quick'],
     'thorough': [[], ['%a'], [':t'], ['@v'], ['%a', ':t'], ['%@'], ['@%%'], ['%'], ['%a%b'],
-                 ['%%'], ['%a.b_1'], ['@a@'], [':t', '%a', '@v']],
+                 ['%%'], ['%a.b_1'], ['@a@'], [':t', '%a', '@v']] + REPEATED['thorough'],
 }
 ANN_SMALL = [[], ['%a'], ['%a', ':t'], ['@a%b']]
 ANN_TINY = [[], ['%a'], [':t', '@v']]
@@ -332,11 +358,51 @@ def strings(tier):
     for k in range(2, n + 1):
         out += [''.join(w) for w in itertools.product(SPECIAL, repeat=k)]
     out += [''.join(chr(c) for c in range(0x20, 0x7f)), '\\n', '\\\\"', '/* " */', '# "', '"' * 5, '\\' * 5]
+    seen = set(out)
+    out += [w for w in ws_words(4 if tier == 'quick' else 6) if w not in seen]
     return out
 
 
 INTS = [0, 1, -1, 9, -9, 10, -10, 2 ** 63, -2 ** 63, 10 ** 40, -10 ** 40, 255, -256, 10 ** 120]
-BYTES = ['', '00', 'ff', '0123456789abcdef', 'ABCDEF', '00' * 60]
+BYTES = ['', '00', 'ff', '0123456789abcdef', 'ABCDEF', 'abcdef', '00' * 60]
+
+
+def words(alpha, lo, hi):
+    return [''.join(w) for k in range(lo, hi + 1) for w in itertools.product(alpha, repeat=k)]
+
+
+def ws_words(n):
+    """White-space runs of every length inside, before and after a word."""
+    return words([' ', 'a'], 1, n)
+
+
+# L2: literals side by side in one text
+PAIR_SPECIAL = ['"', '\\', '\n', ' ', '#', '/', '*', ';', 'a']
+TRIPLE = {
+    'quick': [S(''), S('"'), S('\\'), S(' '), S('a'), S('\\"'), I(-1), B('00')],
+    'thorough': [S(''), S('"'), S('\\'), S(' '), S('a'), S('\\"'), S('"\\'), S('\n'), S('#'), S('/*'), I(-1), I(0), B('00'), B('')],
+}
+
+
+def pair_literals(tier):
+    if tier == 'quick':
+        return [S(w) for w in words(PAIR_SPECIAL, 0, 2)] + [I(0), I(-1), I(10)] + [B(''), B('00')]
+    return [S(w) for w in words(SPECIAL, 0, 2)] + [I(n) for n in INTS] + [B(b) for b in BYTES]
+
+
+L2_HOSTS = [
+    ('Pair [] []', lambda a, b: P('Pair', a, b)),
+    ('{ [] ; [] }', lambda a, b: [a, b]),
+    ('{ Elt [] [] }', lambda a, b: [P('Elt', a, b)]),
+    ('{ PUSH string [] ; PUSH string [] }', lambda a, b: [P('PUSH', P('string'), a), P('PUSH', P('string'), b)]),
+    ('Pair [] -1 []', lambda a, b: P('Pair', a, I(-1), b)),
+    ('Pair [] [] long', lambda a, b: P('Pair', a, b, S(LONGS), S(LONGS))),
+    ('{ [] ; [] ; long }', lambda a, b: [a, b, S(LONGS), S(LONGS)]),
+]
+L3_HOSTS = [
+    ('Pair [] [] []', lambda a, b, c: P('Pair', a, b, c)),
+    ('{ [] ; [] ; [] }', lambda a, b, c: [a, b, c]),
+]
 
 
 # ------------------------------------------------------------------------------------------------
@@ -392,6 +458,45 @@ def roundtrip(e, inline, shared=False):
     if back == e:
         return 'ok', text, None
     return 'differs', text, back
+
+
+def _scribble(x):
+    """Overwrite a returned expression in place: a later call must not hand the same objects out again."""
+    if isinstance(x, list):
+        for y in list(x):
+            _scribble(y)
+        x.append({'prim': 'SCRIBBLED'})
+    elif isinstance(x, dict):
+        for y in list(x.get('args') or ()):
+            _scribble(y)
+        if isinstance(x.get('annots'), list):
+            x['annots'].append('%scribbled')
+        if isinstance(x.get('args'), list):
+            x['args'].append({'int': '666'})
+        for k in list(x):
+            if k in ('int', 'string', 'bytes', 'prim'):
+                x[k] = 'scribbled'
+
+
+def default_roundtrip(e, inline):
+    """One round trip through the default path (no parser argument); the parser's result is scribbled over afterwards.
+    -> (status, text, back/err) like roundtrip()."""
+    from pytezos.michelson.format import micheline_to_michelson
+    from pytezos.michelson.parse import michelson_to_micheline
+    try:
+        text = micheline_to_michelson(e, inline=inline)
+    except Exception as ex:  # noqa
+        return 'format-error', None, f'{type(ex).__name__}: {ex}'
+    try:
+        back = michelson_to_micheline(text)
+    except Exception as ex:  # noqa
+        return 'parse-error', text, f'{type(ex).__name__}: {ex}'[:300]
+    if back == e:
+        _scribble(back)
+        return 'ok', text, None
+    snap = copy.deepcopy(back)
+    _scribble(back)
+    return 'differs', text, snap
 
 
 def walk(e, pos='root', acc=None):
@@ -476,8 +581,24 @@ def _unparenthesised(e):
     return None
 
 
+def _dedupe(e):
+    if isinstance(e, list):
+        return [_dedupe(x) for x in e]
+    if isinstance(e, dict) and 'prim' in e:
+        d = dict(e)
+        if 'args' in e:
+            d['args'] = [_dedupe(x) for x in e['args']]
+        if 'annots' in e:
+            d['annots'] = list(dict.fromkeys(e['annots']))
+        return d
+    return e
+
+
 def diagnose(e, inline, sort, status, text, back, shared=False):
     """Name the class of failure of a judged case."""
+    if status == 'differs' and _dedupe(e) != e and back == _dedupe(e):
+        return ('annotation token repeated on one primitive is parsed back once',
+                f'{text!r} parses to {_short(back)}')
     c = _unparenthesised(e)
     if c is not None:
         what = ' and '.join(w for w, k in (('arguments', 'args'), ('annotations', 'annots')) if k in c)
@@ -509,6 +630,35 @@ def check_case(e, inline):
         return sort, status, text, []
     d, detail = diagnose(e, inline, sort, status, text, back)
     return sort, status, text, [(d, f'inline={inline} expr={_short(e)} :: {detail}')]
+
+
+def judge_history_failure(e, inline, sort, status, text, back):
+    """A default-path round trip failed in the middle of a sequence.  If the very same expression round-trips through an
+    explicitly constructed parser the failure is one of history, otherwise it is classified like any other."""
+    from pytezos.michelson.parse import MichelsonParser, michelson_to_micheline
+    if text is not None:
+        try:
+            fresh = michelson_to_micheline(text, parser=MichelsonParser())
+        except Exception:  # noqa
+            fresh = None
+        if fresh == e:
+            return [(f'default-parser round trip of a {sort} expression fails after earlier calls in the same process '
+                     f'(the same text parses back correctly with an explicitly constructed parser)',
+                     f'{text!r} -> {status}: {_short(back)}')]
+    return [diagnose(e, inline, sort, status, text, back)]
+
+
+def run_history(case):
+    """Replay of a recorded history case: the recorded earlier calls, then the call itself."""
+    for e, inline in case.get('history', []):
+        default_roundtrip(e, bool(inline))
+    e, inline = case['expr'], bool(case['inline'])
+    sort = G.root_sort(e)
+    status, text, back = default_roundtrip(e, inline)
+    if sort is None or status == 'ok':
+        return []
+    return [(d, f'after {len(case.get("history", []))} earlier calls: inline={inline} expr={_short(e)} :: {detail}')
+            for d, detail in judge_history_failure(e, inline, sort, status, text, back)]
 
 
 class Shard:
@@ -562,10 +712,85 @@ class Shard:
         if long != short:
             self.case(long, family)
 
+    def history(self, seq, name):
+        """seq: expressions.  Every (expression, layout) through the default path, in order and then in reverse order, inside
+        this process; each call is judged on its own."""
+        r = self.r
+        calls = [(e, inline) for e in seq for inline in (True, False)]
+        sorts = {id(e): G.root_sort(e) for e in seq}
+        keys = {id(e): json.dumps(e, sort_keys=True) for e in seq}
+        done = []
+        r.extra['history_sequences'] += 1
+        for e, inline in calls + calls[::-1]:
+            r.ev()
+            r.extra['history_calls_through_default_parser'] += 1
+            sort = sorts[id(e)]
+            status, text, back = default_roundtrip(e, inline)
+            case = {'expr': e, 'inline': inline}
+            self.last = case
+            if sort is None:
+                r.no_verdict += 1
+                r.out(f'history / outside statement / {status}')
+            else:
+                r.out(f'history / {sort} / {status}')
+                r.nt((keys[id(e)], inline))
+                if status != 'ok':
+                    for d, detail in judge_history_failure(e, inline, sort, status, text, back):
+                        r.viol(d, dict(case, history=list(done)),
+                               f'[H:{name}] call {len(done) + 1} of the sequence: inline={inline} expr={_short(e)} :: {detail}')
+            done.append([e, inline])
+
     def done(self):
         if self.last is not None:
             self.r.sample(self.last)
         return self.r
+
+
+# ------------------------------------------------------------------------------------------------
+# H: call histories
+
+H_STRING_HOSTS = [
+    ('root', lambda X: X),
+    ('Pair [] -1', lambda X: P('Pair', X, I(-1))),
+    ('{ PUSH string [] ; FAILWITH }', lambda X: [P('PUSH', P('string'), X), P('FAILWITH')]),
+    ('Some []', lambda X: P('Some', X)),
+]
+
+
+def _same_word_forms():
+    """Minimal forms of the primitives whose names coincide up to case (int INT, unit UNIT Unit, pair PAIR Pair ...)."""
+    forms = forms_T([[]], True) + forms_I([[]], True) + [P(d) for d in G.DATA0] + [P(c, I(1)) for c in G.DATA1] + \
+        [P('Pair', I(1), I(2)), P('Lambda_rec', [P('DROP')]),
+         P('Ticket', S('KT1BEqzn5Wx8uJrZNvuS9DVHmLvG9td3fDLi'), P('nat'), I(1), I(2))]
+    groups: dict[str, list] = {}
+    for f in forms:
+        if f is not CONST:
+            groups.setdefault(f['prim'].lower(), []).append(f)
+    return [f for k in sorted(groups) if len({f['prim'] for f in groups[k]}) > 1 for f in groups[k]]
+
+
+def history_sequences(tier):
+    """[(name, [expression])] -- each sequence is run inside one shard."""
+    strs = [S(w) for w in strings('quick')]
+    if tier != 'quick':
+        seen = {x['string'] for x in strs}
+        strs += [S(w) for w in ws_words(6) if w not in seen]
+    lits = [I(n) for n in INTS] + [B(b) for b in BYTES]
+    hosts = list(H_STRING_HOSTS)
+    if tier != 'quick':
+        hosts += [(chain_name(c), lambda X, c=c: apply_chain(c, X, False)) for c in chains('D', 1)
+                  if chain_name(c) not in dict(H_STRING_HOSTS)]
+    seqs = [(f'strings in {n}', [h(x) for x in strs]) for n, h in hosts]
+    seqs.append(('ints and bytes', [h(x) for _, h in H_STRING_HOSTS for x in lits]))
+    types = forms_T(ANN[tier], True)
+    seqs.append(('types at root', types))
+    seqs.append(('types in argument position', [P('option', t) for t in types]))
+    seqs.append(('data', forms_D()))
+    seqs.append(('instructions', forms_I(ANN_TINY + REPEATED['quick'][:1], True)))
+    seqs.append(('code and scripts', forms_C() + forms_X()))
+    seqs.append(('short and long version of one form', [x for f in forms_D() + forms_C() for x in (f, lengthen(f))]))
+    seqs.append(('same word up to case', _same_word_forms()))
+    return seqs
 
 
 # ------------------------------------------------------------------------------------------------
@@ -592,22 +817,38 @@ def _forms(sort, tier, annset, reduced):
     return forms_X()
 
 
+LANES = 16          # the runner's default job count: worker k runs shards[k::16]
+MS_BULK, MS_DEFAULT_PATH = 0.12, 3.5     # measured cost of one evaluation through the shared parser / the default path
+
+
 def shards(tier, seed):
-    out = []
+    out = []        # (estimated cost in ms, spec)
     for fam, sort, depth, annset, reduced in _plan(tier):
         nch = len(chains(sort, depth))
         nf = len(_forms(sort, tier, annset, reduced))
         k = max(1, min(nch, (nch * nf) // 6000))
-        out += [(fam, sort, depth, annset, reduced, i, k) for i in range(k)]
-    for kind in ('string', 'int', 'bytes'):
+        out += [(nch * nf * 4 * MS_BULK / k, (fam, sort, depth, annset, reduced, i, k)) for i in range(k)]
+    nhosts = sum(len(chains('D', d)) for d in (0, 1, 2))
+    for kind, n in (('string', len(strings(tier))), ('int', len(INTS)), ('bytes', len(BYTES))):
         k = 16 if (kind == 'string' and tier != 'quick') else 4
-        out += [('L', kind, 0, '', False, i, k) for i in range(k)]
+        out += [(n * nhosts * 4 * MS_BULK / k, ('L', kind, 0, '', False, i, k)) for i in range(k)]
+    k = 8 if tier == 'quick' else 32
+    n = len(pair_literals(tier))
+    out += [(n * n * len(L2_HOSTS) * 2 * MS_BULK / k, ('L2', 'pair', 0, '', False, i, k)) for i in range(k)]
+    out += [(len(TRIPLE[tier]) ** 3 * len(L3_HOSTS) * 2 * MS_BULK, ('L2', 'triple', 0, '', False, 0, 1))]
     from pytezos.michelson.tags import prim_tags
     prims = list(prim_tags)
-    nb = 32 if tier == 'quick' else 181
-    out += [('B', '', 0, '', False, i, nb) for i in range(nb)]
     assert len(prims) == len(G.ALL_CLASSIFIED)
-    return out
+    nb = 32 if tier == 'quick' else 181
+    nforms = sum(len(SHAPES) ** j for j in range((2 if tier == 'quick' else 3) + 1)) * 2
+    out += [(len(prims) * nforms * len(B_HOSTS) * 2 * MS_BULK / nb, ('B', '', 0, '', False, i, nb)) for i in range(nb)]
+    hs = history_sequences(tier)
+    out += [(len(seq) * 4 * MS_DEFAULT_PATH, ('H', '', 0, '', False, i, len(hs))) for i, (_, seq) in enumerate(hs)]
+    # deal the shards to the runner's lanes like cards, most expensive first, alternating direction, so that the
+    # static lanes carry about the same load (with the default seed; the set of shards never depends on it)
+    out.sort(key=lambda ws: -ws[0])
+    rows = [out[i:i + LANES] for i in range(0, len(out), LANES)]
+    return [spec for j, row in enumerate(rows) for _, spec in (row[::-1] if j % 2 else row)]
 
 
 def run_shard(spec, tier):
@@ -635,6 +876,19 @@ def run_shard(spec, tier):
                 sh.both(chain, lit, f'L:{sort}:{chain_name(chain)}')
             for fn in extra:
                 sh.case(fn(lit), f'L:{sort}:extra')
+    elif fam == 'L2' and sort == 'pair':
+        lits = pair_literals(tier)
+        for a in lits[i::k]:
+            for b in lits:
+                for name, host in L2_HOSTS:
+                    sh.case(host(a, b), f'L2:{name}')
+    elif fam == 'L2':
+        for a, b, c in itertools.product(TRIPLE[tier], repeat=3):
+            for name, host in L3_HOSTS:
+                sh.case(host(a, b, c), f'L2:{name}')
+    elif fam == 'H':
+        name, seq = history_sequences(tier)[i]
+        sh.history(seq, name)
     else:
         from pytezos.michelson.tags import prim_tags
         for prim in list(prim_tags)[i::k]:
@@ -681,6 +935,8 @@ def finalize(res, tier):
 
 
 def replay(case):
+    if 'history' in case:
+        return run_history(case)
     return check_case(case['expr'], bool(case['inline']))[3]
 
 
